@@ -656,6 +656,13 @@ def draw_scene(rng, max_centers):
     rotated = bool(rng.random() < 0.6)
     Q = rand_orthogonal(rng) if rotated else np.eye(3)
     t = rng.uniform(-3, 3, 3) if rng.random() < 0.7 else np.zeros(3)
+    far = bool(rng.random() < 0.2)
+    if far:
+        # a scene given in geo-referenced coordinates: offsets of 10 km .. 5000 km (integers, so that the
+        # translated coordinates stay exactly representable up to the usual rounding of the sum)
+        t = np.round(rng.choice([-1.0, 1.0], 3) * 10 ** rng.uniform(4.0, 6.7, 3))
+        if rng.random() < 0.5:
+            t[int(rng.integers(0, 3))] = 0.0
 
     def tp(x):
         return np.asarray(x, dtype=float) @ Q.T + t
@@ -663,7 +670,7 @@ def draw_scene(rng, max_centers):
     centers = np.array([tp(c) for c in centers])
     evalpts = [tp(e) for e in evalpts]
     return dict(dims=dims, surfs=surfs, centers=centers, evalpts=evalpts, rotated=rotated, pmode=pmode,
-                nblock=len(blockers), quads_only=quads_only)
+                nblock=len(blockers), quads_only=quads_only, far=far)
 
 
 def scene_case(spec):
@@ -683,6 +690,8 @@ def scene_case(spec):
     out["dist"]["scene_blockers_%d" % sc["nblock"]] = 1
     out["dist"]["scene_%s" % ("rotated" if sc["rotated"] else "axis_aligned")] = 1
     out["dist"]["scene_surfaces_" + sc["pmode"]] = 1
+    if sc.get("far"):
+        out["dist"]["scene_far_from_origin"] = 1
     ragged = len({len(p) for p in polys}) > 1
     sp_arg = polys if ragged else np.array(polys)
     sn_arg = np.array(normals)
